@@ -278,6 +278,72 @@ pub fn check_case(c: &Case10) -> Result<SweepObs, (String, String)> {
     sweep(&c.base.cfg, &c.base.input(), &c.base.cuts, &limits, &move |_| p, c.depth, c.active_vm)
 }
 
+/// smallest limit under which the run succeeds (success is monotone in M: checked by the sweeps)
+pub fn min_limit(cfg: &Config, input: &[u8], cuts: &[usize]) -> Result<Option<usize>, (String, String)> {
+    let mut hi = 1usize << 20;
+    if !run_at(cfg, input, cuts, hi, 0)?.0.ok {
+        return Ok(None);
+    }
+    let mut lo = 0usize; // invariant: fails at lo-1 (or lo == 0), succeeds at hi
+    while lo < hi {
+        let mid = (lo + hi) / 2;
+        if run_at(cfg, input, cuts, mid, 0)?.0.ok {
+            hi = mid;
+        } else {
+            lo = mid + 1;
+        }
+    }
+    Ok(Some(hi))
+}
+
+#[derive(Clone, Debug, serde_derive::Serialize, serde_derive::Deserialize)]
+pub struct Additive {
+    pub depth: usize,
+    pub token_len: usize,
+    pub split: usize,
+    pub selector: String,
+    pub name: String,
+}
+
+/// One budget for everything: D open elements under an active selector VM (charged to the open-element stack) and an
+/// unfinished token buffered across two writes (charged to the parsing buffer) are both alive after the last write, so
+/// the smallest sufficient limit of the combined document is at least the sum of the limits each part needs alone.
+pub fn check_additive(a: &Additive) -> Result<(usize, usize, usize), (String, String)> {
+    let cfg = Config { el: vec![ElH { selector: a.selector.clone(), element: true, ..Default::default() }], skip_end: true, ..Default::default() };
+    let mut nest: Vec<u8> = vec![];
+    for _ in 0..a.depth {
+        nest.extend_from_slice(format!("<{}>", a.name).as_bytes());
+    }
+    let mut tok: Vec<u8> = b"<a href=\"".to_vec();
+    while tok.len() < a.token_len {
+        tok.push(b'u');
+    }
+    let split = a.split.clamp(1, tok.len() - 1);
+    let mut both = nest.clone();
+    both.extend_from_slice(&tok);
+    // the unfinished `<a href=...` may itself be pushed on the open-element stack as soon as its name is known, so the
+    // stack-only part contains an `<a>` too and the charge of a lone `<a>` is subtracted once
+    let stack_only = {
+        let mut v = nest.clone();
+        v.extend_from_slice(b"<a>x");
+        v
+    };
+    let need_a = min_limit(&cfg, b"<a>x", &[])?;
+    let need_stack = min_limit(&cfg, &stack_only, &[])?;
+    let need_buf = min_limit(&cfg, &tok, &[split])?;
+    let need_both = min_limit(&cfg, &both, &[nest.len() + split])?;
+    let (Some(s1), Some(s), Some(b), Some(t)) = (need_a, need_stack, need_buf, need_both) else {
+        return Err(("harness".into(), "additivity case does not succeed under 1 MiB".into()));
+    };
+    if t + 8 < (s + b).saturating_sub(s1) {
+        return Err((
+            "limit-not-shared".into(),
+            format!("{} open <{}> elements plus <a> alone need a limit of {s} (a lone <a>: {s1}), a {}-byte unfinished <a ...> token split at {split} alone needs {b}, but both together succeed under {t} < {s} + {b} - {s1}: the open-element stack and the parsing buffer are not charged to one budget", a.depth, a.name, tok.len()),
+        ));
+    }
+    Ok((s, b, t))
+}
+
 impl Prop for C10 {
     fn id(&self) -> &'static str {
         "C10"
@@ -286,7 +352,7 @@ impl Prop for C10 {
         "fault_enumeration"
     }
     fn rule(&self) -> String {
-        "for growth-shaped inputs (unterminated tag / comment / attribute value / doctype / end tag, long tag name, deep nesting in HTML and foreign content, soup) x handler sets (pass-through, capturing observers, selectors) x write schedules x preallocation modes the memory limit M is swept over EVERY value from 0 to beyond the first succeeding one (small inputs) or geometrically (large); per run: accounted usage (hook) <= M and pending <= M after every successful call, only MemoryLimitExceeded as failure; per sweep: monotone success with identical output, >= 8 bytes charged per open element, determinism on re-runs; non-trivial: the sweep contains both a failing and a succeeding limit; distinct = hash(input, schedule, config, prealloc mode)".into()
+        "for growth-shaped inputs (unterminated tag / comment / attribute value / doctype / end tag, long tag name, deep nesting in HTML and foreign content, soup) x handler sets (pass-through, capturing observers, selectors) x write schedules x preallocation modes the memory limit M is swept over EVERY value from 0 to beyond the first succeeding one (small inputs) or geometrically (large); per run: accounted usage (hook) <= M and pending <= M after every successful call, only MemoryLimitExceeded as failure; per sweep: monotone success with identical output, >= 8 bytes charged per open element, determinism on re-runs; additivity: the smallest sufficient limit of (D open elements + an unfinished token split over two writes) is at least the sum of the limits the two parts need alone (one shared budget); non-trivial: the sweep contains both a failing and a succeeding limit; distinct = hash(input, schedule, config, prealloc mode)".into()
     }
     fn assumptions(&self) -> Vec<String> {
         vec![
@@ -301,6 +367,27 @@ impl Prop for C10 {
         for i in 0..n {
             if i % 4 == 0 && ctx.should_stop() {
                 break;
+            }
+            if i % 8 == 5 {
+                let a = Additive { depth: ctx.rng.range(2, 60), token_len: ctx.rng.range(20, 900), split: ctx.rng.range(1, 600), selector: (*ctx.rng.pick(&["*", "div", "div div", ":not(p)", "span, div"])).to_string(), name: (*ctx.rng.pick(&["div", "span", "abcdefghijklmnopq"])).to_string() };
+                ctx.eval();
+                match check_additive(&a) {
+                    Ok((s, b, t)) => {
+                        ctx.count("additivity_cases");
+                        if t > s && t > b {
+                            ctx.count("additivity_cases_where_both_parts_matter");
+                        }
+                    }
+                    Err((key, msg)) => {
+                        if key == "harness" {
+                            panic!("{msg}");
+                        }
+                        if !ctx.violation(Violation { key, msg, case: serde_json::json!({"additive": a}) }) {
+                            return;
+                        }
+                    }
+                }
+                continue;
             }
             let shape = SHAPES[ctx.rng.below(SHAPES.len())];
             let big = ctx.rng.chance(1, 12);
@@ -416,6 +503,13 @@ impl Prop for C10 {
         }
     }
     fn replay(&self, case: &Value) -> Result<Vec<Violation>, String> {
+        if let Some(a) = case.get("additive") {
+            let a: Additive = serde_json::from_value(a.clone()).map_err(|e| e.to_string())?;
+            return match check_additive(&a) {
+                Ok(_) => Ok(vec![]),
+                Err((key, msg)) => Ok(vec![Violation { key, msg, case: case.clone() }]),
+            };
+        }
         let c: Case10 = serde_json::from_value(case.clone()).map_err(|e| e.to_string())?;
         match check_case(&c) {
             Ok(_) => Ok(vec![]),
